@@ -32,6 +32,15 @@ theorem C16_empty_iff (d : Nat) (a b : Val) :
             · split <;> simp
             · simp
 
+/-- C16, what "equal" means: within the depth limit and on values without dicts `EqualDepth` is equality of the
+values (for dicts it is equality up to the order of insertion, which the correspondence stream `diff.equal`
+compares with the implementation); so the diff of two such values is empty exactly when they are the same. -/
+theorem C16_empty_iff_same (d : Nat) (a b : Val) (hf : a.dictFree = true) (hh : a.height ≤ d) :
+    diffDepth d a b = .ok none ↔ a = b := by
+  rw [(C16_empty_iff d a b).1, equalDepth_dictFree d a b hf hh]
+  simp only [Except.ok.injEq]
+  exact Val.beq_iff_eq a b
+
 /-- C16, sides: a diff reports the two values it was made from, in the order given (the repair of D5). -/
 theorem C16_sides (d : Nat) (a b : Val) (x : VDiff) (h : diffDepth d a b = .ok (some x)) :
     x.old = a ∧ x.new = b := by
